@@ -7,6 +7,14 @@ open Ptk Ptk.Py Ptk.Proto Ptk.C01
 def swapCase (t : Text) : Text := t.map fun c =>
   if c.isLower then c.toUpper else if c.isUpper then c.toLower else c
 
+def asciiUpper (t : Text) : Text := t.map Char.toUpper
+def asciiLower (t : Text) : Text := t.map Char.toLower
+/-- `str.title()` restricted to ASCII letters (all other characters are uncased) -/
+def asciiTitle (t : Text) : Text :=
+  (t.foldl (fun (acc : Text × Bool) c =>
+    if c.isAlpha then ((if acc.2 then c.toLower else c.toUpper) :: acc.1, true)
+    else (c :: acc.1, false)) ([], false)).1.reverse
+
 def parseOp : List String → Option Op
   | ["ins", d, o, m] => do pure (.insert (← decStr d) (← decBool o) (← decBool m))
   | ["del", n] => do pure (.delete (← decNat n))
@@ -22,6 +30,10 @@ def parseOp : List String → Option Op
   | ["trr", a, b] => do pure (.trRegion (← decNat a) (← decNat b))
   | ["ind", a, b, n] => do pure (.indent (← decInt a) (← decInt b) (← decNat n))
   | ["unind", a, b, n] => do pure (.unindent (← decInt a) (← decInt b) (← decNat n))
+  | ["bdc", a] => do pure (.backwardDeleteChar (← decInt a))
+  | ["dc", a] => do pure (.deleteChar (← decInt a))
+  | ["si", d, a] => do pure (.selfInsert (← decStr d) (← decInt a))
+  | ["tc"] => some .transposeChars
   | _ => none
 
 def stepLine (b : Buf) (toks : List String) : Buf × String :=
@@ -30,6 +42,22 @@ def stepLine (b : Buf) (toks : List String) : Buf × String :=
     match decStr t, decNat c with
     | some t, some c => ({ text := t, cur := c }, s!"{encStr t} {c} s:")
     | _, _ => (b, "bad-op")
+  | [w, n] =>
+    let f? : Option (Text → Text) :=
+      if w == "uw" then some asciiUpper else if w == "lw" then some asciiLower
+      else if w == "cw" then some asciiTitle else none
+    match f?, decInt n with
+    | some f, some n =>
+      let b' := transformWords Gen.reSpace f n.toNat b
+      (b', s!"{encStr b'.text} {b'.cur} s:")
+    | _, _ =>
+      match parseOp toks with
+      | some op =>
+        let (b', r) := step Gen.isSpace swapCase b op
+        -- the readline commands return None; only the Buffer methods return the deleted text
+        let r := if w == "bdc" || w == "dc" then [] else r
+        (b', s!"{encStr b'.text} {b'.cur} {encStr r}")
+      | none => (b, "bad-op")
   | _ =>
     match parseOp toks with
     | some op =>
